@@ -157,6 +157,9 @@ DEFAULT = {
     "retry": False, "creq": False,
     # not dimensions of the agreement product:
     "cert": "valid", "name": "localhost", "decline_psk": False,
+    # resumption across a configuration change: dimension overrides that apply to the FIRST
+    # (ticket-issuing) connection only
+    "first": {},
 }
 
 
@@ -493,16 +496,18 @@ def run_quic(spec, ticket=None, store=None, alter=None, chooser=None, want_ticke
 
 def run_spec(spec, trace=False):
     """Run a configuration; for resumed sessions a first, fresh connection with the same
-    configuration obtains the ticket.  Returns the result of the judged (last) connection with
+    configuration (modified by spec["first"], if any) obtains the ticket.  Returns the result of the judged (last) connection with
     res['first'] = summary of the ticket-fetching connection."""
     if spec["sess"] == "fresh":
         res, _ = run_quic(spec, trace=trace)
         return res
     store = {}
-    first_spec = dict(spec, sess="fresh")
+    first_spec = dict(spec, sess="fresh", first={})
+    first_spec.update(spec.get("first") or {})
     r1, m1 = run_quic(first_spec, store=store, want_ticket=True)
     if not (r1["c_done"] and r1["s_done"] and m1.client_tickets):
         r1["resumption_not_possible"] = True
+        r1["judged_spec"] = first_spec
         r1["first"] = None
         return r1
     res, _ = run_quic(spec, ticket=m1.client_tickets[0], store=store, trace=trace)
@@ -547,7 +552,7 @@ def judge(spec, res):
     base = {}   # one report per symptom; the configuration is in the message and the replay
     if res.get("resumption_not_possible"):
         # the first connection is itself an ordinary fresh run: judge it as such
-        spec = dict(spec, sess="fresh")
+        spec = res.get("judged_spec") or dict(spec, sess="fresh")
     c_done, s_done = res["c_done"], res["s_done"]
     # (4) no common option => neither side ever completes
     lacking = [k for k in ("suites", "versions", "alpn") if exp[k] is False]
@@ -853,6 +858,13 @@ def adversary_runs(kt, name):
                                        ("certificate_verify", {"key": "other"}), ("finished", {})],
         "cv_omitted": [("server_hello", {}), ("encrypted_extensions", {}), ("certificate", {}), ("finished", {})],
         "psk_not_offered": [("server_hello", {"psk_index": 0}), ("encrypted_extensions", {}), ("finished", {})],
+        # no PSK at all, but EncryptedExtensions claims that early data was accepted; then Finished
+        # (MAC under the plain (EC)DHE schedule, which any peer can compute)
+        "ee_early_data_then_finished": [("server_hello", {}), ("encrypted_extensions", {"extra_extensions": [(R.EXT_EARLY_DATA, b"")]}),
+                                        ("finished", {})],
+        "ee_unknown_extension_then_finished": [("server_hello", {}), ("encrypted_extensions", {"extra_extensions": [(0xABCD, b"x")]}),
+                                               ("finished", {})],
+        "ee_then_finished": [("server_hello", {}), ("encrypted_extensions", {}), ("finished", {})],
     }
     for case, seq in cases.items():
         c = tls.Context(is_client=True, alpn_protocols=["a"], cadata=cadata(), server_name=name)
@@ -873,6 +885,38 @@ def adversary_runs(kt, name):
                 if case == "cv_other_key_stop_at_alert":
                     break   # what QUIC does: the alert closes the connection
         out.append((case, c.state == tls.State.CLIENT_POST_HANDSHAKE, refused))
+    return out
+
+
+def quic_rogue_flights():
+    """The same rogue server flights at QUIC level: a real client QuicConnection against the
+    key-holding `quicadv.QuicServerAdversary` (correctly protected packets).  Returns
+    [(case, HandshakeCompleted emitted?, termination)]."""
+    from vlib import quicadv as Q
+
+    out = []
+    flights = {
+        "valid_control": lambda a: [a.make("EE"), a.make("CERT"), a.make("CV"), a.make("FIN")],
+        "ee_early_data_then_finished": lambda a: [a.ee(extra=[(R.EXT_EARLY_DATA, b"")]), a.make("FIN")],
+        "ee_unknown_extension_then_finished": lambda a: [a.ee(extra=[(0xABCD, b"x")]), a.make("FIN")],
+        "ee_then_finished": lambda a: [a.make("EE"), a.make("FIN")],
+        "cv_other_key": lambda a: [a.make("EE"), a.make("CERT"), a.make("CV", key="spare"), a.make("FIN")],
+    }
+    for case, build in flights.items():
+        for version in (1, 2):
+            a = Q.QuicServerAdversary(cfg={"version": VER[version]})
+            a.legal("SH")
+            n = 4 if case in ("valid_control", "cv_other_key") else 2
+            for i in range(n):
+                if a.victim.closing:
+                    break
+                raw = build(a)[i]      # built over the transcript accepted so far
+                a.send_tls("handshake", raw)
+                if not a.victim.closing:
+                    a.accepted(raw)
+            a.victim.drive_to_end(max_timers=3)
+            out.append(("%s/v%d" % (case, version), a.victim.handshake_completed,
+                        a.victim.terminated.error_code if a.victim.terminated else None))
     return out
 
 
@@ -937,6 +981,20 @@ def part_auth(ctx, workers):
                               "client reached POST_HANDSHAKE against the key-holding adversary in case %s "
                               "(%s leaf, name %s)" % (case, kt, name),
                               {"part": "auth_adversary", "kt": kt, "name": name, "case": case})
+    n_rogue = 0
+    for case, done, code in quic_rogue_flights():
+        n_rogue += 1
+        o = ("quic_adv", case.split("/")[0], done, code)
+        outcomes[o] = outcomes.get(o, 0) + 1
+        if case.startswith("valid_control"):
+            if not done:
+                raise core.HarnessError("quicadv cannot complete a valid handshake (%s)" % case)
+        elif done:
+            ctx.violation({"monitor": "client_completed_unauthenticated", "cert": case.split("/")[0], "level": "quic"},
+                          "a real client QuicConnection emitted HandshakeCompleted for the rogue server flight %s "
+                          "(no verified CertificateVerify, no PSK)" % case,
+                          {"part": "auth_quic_rogue", "case": case})
+    n_adv += n_rogue
     if len(outcomes) < 6 and not ctx.violations:
         raise core.HarnessError("auth vacuous: %r" % outcomes)
     ctx.part("auth", evaluations=len(specs) + n_adv, transitions=len(specs) + n_adv,
@@ -973,19 +1031,40 @@ def negotiation_product(k, n):
     return out
 
 
+def cross_resumption_specs():
+    """Resumption across a configuration change: the ticket is obtained under configuration A and
+    redeemed under configuration B, A and B differing in ONE of the six negotiation dimensions (every
+    ordered pair of distinct values), the counterpart side offering everything."""
+    wide = {"cs_c": [0x1302, 0x1301, 0x1303], "cs_s": [0x1302, 0x1301, 0x1303], "alpn_c": ["a", "b"],
+            "alpn_s": ["a", "b"], "v_c": [1, [1, 2]], "v_s": [1, 2]}
+    out = {}
+    for dim in ("cs_s", "cs_c", "alpn_s", "alpn_c", "v_s", "v_c"):
+        for a in DIMS[dim]:
+            for b in DIMS[dim]:
+                if a == b or a is None or b is None:
+                    continue
+                for sess in ("resumed", "resumed0"):
+                    kw = dict(wide)
+                    kw[dim] = b
+                    sp = mkspec(sess=sess, first={dim: a}, **kw)
+                    out.setdefault(spec_key(sp), sp)
+    return list(out.values())
+
+
 def _agree_job(spec):
     r = run_spec(spec)
     v = judge(spec, r)
-    exp = expectations(spec)
+    jspec = r.get("judged_spec") or spec
+    exp = expectations(jspec)
     common = all(exp[k] is not False for k in ("suites", "versions", "alpn"))
-    return {"viol": v, "cls": outcome_class(spec, r), "both": r["c_done"] and r["s_done"],
+    return {"viol": v, "cls": outcome_class(jspec, r), "both": r["c_done"] and r["s_done"],
             "none": not r["c_done"] and not r["s_done"], "common": common,
             "alpn_unjudged": exp["alpn"] is None, "steps": r["steps"],
             "resumed": bool(r["c_hc"] and r["c_hc"][1]), "early": bool(r["c_hc"] and r["c_hc"][2]),
             "no_resumption": bool(r.get("resumption_not_possible")), "unopened": r["unopened"]}
 
 
-def part_agreement(ctx, workers, specs, name, time_cap=None):
+def part_agreement(ctx, workers, specs, name, time_cap=None, need_none=True):
     import time
     t0 = time.time()
     done = 0
@@ -1014,7 +1093,7 @@ def part_agreement(ctx, workers, specs, name, time_cap=None):
             if r["common"] and not r["both"]:
                 counts["common_but_incomplete"] += 1
                 if r["none"] and not r["alpn_unjudged"]:
-                    diff = sorted(k for k in DIMS if spec[k] != DEFAULT[k])
+                    diff = sorted(k for k in list(DIMS) + ["first"] if spec[k] != DEFAULT[k])
                     ctx.violation({"monitor": "legal_handshake_failed", "level": "quic", "dims": diff},
                                   "both sides share a version, a cipher suite and an ALPN protocol and the "
                                   "certificate is valid, yet neither completes (liveness guard) [%s]"
@@ -1022,7 +1101,9 @@ def part_agreement(ctx, workers, specs, name, time_cap=None):
                                   {"part": name, "spec": spec})
             if r["alpn_unjudged"] and r["both"]:
                 counts["alpn_unjudged_completed"] += 1
-    if (counts["both"] < 10 or counts["none"] < 5) and not (ctx.violations or ctx.known_hits):
+    vac = counts["both"] < 10 or (counts["none"] < 5 if need_none else
+                                  (counts["resumed"] < 10 or counts["both"] - counts["resumed"] < 10))
+    if vac and not (ctx.violations or ctx.known_hits):
         raise core.HarnessError("%s vacuous: %r" % (name, counts))
     ctx.part(name, evaluations=done, transitions=done, configurations=len(specs),
              distinct_nontrivial=len(classes), **counts)
@@ -1100,6 +1181,8 @@ def run(ctx):
     if "auth" in parts:
         part_auth(ctx, w)
     if "agreement" in parts:
+        part_agreement(ctx, w, cross_resumption_specs(), "agreement_resumption_across_config_change",
+                       need_none=False)
         if quick:
             part_agreement(ctx, w, closure_specs(2), "agreement_pairwise")
         else:
@@ -1166,6 +1249,12 @@ def replay(ctx, obj):
         print("\n".join(res["trace"][-40:]))
         print("  altered %d packets; client done %s, server done %s" % (mon.altered, res["c_done"], res["s_done"]))
         bad = res["s_done"] if rp["alter"]["msg"] == "CH" else res["c_done"]
+    elif part == "auth_quic_rogue":
+        bad = False
+        for case, done, code in quic_rogue_flights():
+            print("  %-44s HandshakeCompleted=%s close code=%r" % (case, done, code))
+            if case == rp["case"] and done:
+                bad = True
     elif part == "auth_adversary":
         rows = adversary_runs(rp["kt"], rp["name"])
         bad = False
